@@ -16,6 +16,7 @@ pub mod inotify;
 pub mod life;
 pub mod readbuf;
 pub mod smoke;
+pub mod sq;
 
 /// What a case reports when it ends.
 #[derive(Default)]
@@ -31,6 +32,10 @@ pub struct CaseReport {
 pub trait Case {
     /// Produce the next op of a generated case (None = end of the case).
     fn next_op(&mut self, rng: &mut Rng) -> Option<String>;
+    /// Output lines of the `begin` header itself (default: none).
+    fn begin_output(&mut self) -> Vec<String> {
+        Vec::new()
+    }
     /// Execute one op line against the implementation; returns output lines.
     fn exec(&mut self, op: &str) -> Vec<String>;
     /// Oracle failures detected by the op just executed: (property, signature, what).
@@ -115,6 +120,9 @@ pub fn run_comp(a: &Args, comp: &mut dyn Comp) -> i32 {
         let _ = live_ops.flush();
         script.push(header.clone());
         let mut case = comp.begin(&header);
+        for l in case.begin_output() {
+            out.line(&l);
+        }
         let mut k = 1usize;
         loop {
             let op = if replaying {
@@ -236,6 +244,7 @@ pub fn run(a: &Args) -> i32 {
         "smoke" => smoke::run(a),
         "addr" => run_comp(a, &mut addr::AddrComp),
         "life" => run_comp(a, &mut life::LifeComp),
+        "sq" => run_comp(a, &mut sq::SqComp),
         "bufs" => run_comp(a, &mut bufs::BufsComp),
         "composite" => run_comp(a, &mut composite::CompositeComp),
         "readbuf" => run_comp(a, &mut readbuf::ReadBufComp),
